@@ -255,7 +255,10 @@ def run(chk: Check) -> None:
     ok = len(vals) == len(created) + len(direct) and bool(created) and bool(direct) and all(('T', 'namespace') in fs for fs, _ in created) and all(('F', 'namespace') in fs for fs, _ in direct)
     chk.ob('PROV-namespace-options', ep, ok, 'with a namespace the ports go into destination.<namespace> (created if needed), without one into the destination itself', kind='target-namespace')
     mem = [n for n in ast.walk(ep.node) if isinstance(n, ast.Assign) and norm(n.targets[0]) == 'expose_memory[namespace][process_class]']
-    chk.ob('PROV-namespace-options', ep, len(mem) == 1 and norm(mem[0].value) == 'absorbed_ports', 'what was absorbed is remembered per (namespace, process class)', kind='memory')
+    from ..rules import Resolver
+    res_ep = Resolver(ep)
+    ok = len(mem) == 1 and len(ab_call) == 1 and res_ep.text(mem[0].value) == res_ep.text(ab_call[0])   # the value remembered is what absorb returned (directly or through a local)
+    chk.ob('PROV-namespace-options', ep, ok, 'what was absorbed is remembered per (namespace, process class)', kind='memory')
     for q, srcexpr, dst, memo in (('process_spec.ProcessSpec.expose_inputs', 'process_class.spec().inputs', 'self.inputs', 'self._exposed_inputs'),
                                   ('process_spec.ProcessSpec.expose_outputs', 'process_class.spec().outputs', 'self.outputs', 'self._exposed_outputs')):
         f = prog.func(q)
